@@ -476,7 +476,8 @@ def reuse_cases(draw):
     values = gen.json_values(4)
     steps = []
     for _ in range(draw(st.integers(3, 7))):
-        steps.append({"via": draw(st.sampled_from(["proxy", "namespace", "namespace", "leaf", "leaf", "notify", "notify-namespace", "multicall"])),
+        steps.append({"via": draw(st.sampled_from(["proxy", "namespace", "namespace", "leaf", "leaf", "notify", "notify-namespace", "multicall",
+                                                   "multicall-kept", "multicall-kept", "multicall-kept-notify"])),
                       "leaf": draw(st.integers(0, len(leaves) - 1)),
                       "params": draw(gen.pick(st.lists(values, max_size=2), st.dictionaries(st.sampled_from(["a", "b"]), values, max_size=2))),
                       "result": draw(values)})
@@ -520,6 +521,10 @@ def oracle_reuse(case):
     except Exception as ex:
         fail("C01/call-raised:%s" % type(ex).__name__, "taking the namespace %r of a proxy raised %s: %s" % (".".join(case["prefix"]), type(ex).__name__, str(ex)[:200]))
     held_leaves = {}
+    # a MultiCall object (and the notification accessor taken from it) that is used for one batch after the other: once a
+    # batch has been sent the object is empty again
+    kept_mc = J.MultiCall(proxy, ccfg)
+    kept_mc_notify = kept_mc._notify
     exchanges = 0
     used = set()
     for i, st_ in enumerate(case["steps"]):
@@ -543,11 +548,23 @@ def oracle_reuse(case):
                 m = walk(held["notify"], case["prefix"] + [leaf])
             elif via == "notify-namespace":
                 m = getattr(held["notify-namespace"], leaf)
+            elif via == "multicall-kept":
+                mc = kept_mc
+                m = walk(mc, case["prefix"] + [leaf])
+            elif via == "multicall-kept-notify":
+                mc = kept_mc
+                m = walk(kept_mc_notify, case["prefix"] + [leaf])
             else:
                 mc = J.MultiCall(proxy, ccfg)
                 m = walk(mc, case["prefix"] + [leaf])
             got = m(**params) if isinstance(params, dict) else m(*params)
-            if via == "multicall":
+            if via == "multicall-kept-notify":
+                res = mc()
+                got = list(res) if res is not None else "nothing was sent"
+                if got != []:
+                    fail("C01/batch-result", "step %d: a batch holding one notification yielded %r" % (i, got))
+                got = None
+            elif via in ("multicall", "multicall-kept"):
                 got = list(mc())
                 if len(got) != 1:
                     fail("C01/batch-result", "step %d: a MultiCall of one call yielded %r" % (i, got))
@@ -564,7 +581,7 @@ def oracle_reuse(case):
         if len(new) != 1 or new[0][0] != want[0] or not gen.strict_eq(new[0][1], want[1]) or not gen.strict_eq(new[0][2], want[2]):
             fail("C01/invocations", "step %d: %s through a kept %s object invoked %r, expected exactly %r" % (i, full, via, new, want),
                  {"steps": [(s_["via"], case["leaves"][s_["leaf"]]) for s_ in case["steps"][:i + 1]]})
-        if via.startswith("notify"):
+        if via.startswith("notify") or via == "multicall-kept-notify":
             if got is not None:
                 fail("C01/notify-result", "step %d: notification returned %r" % (i, got))
         elif not gen.strict_eq(got, gen.norm(st_["result"])):
